@@ -61,15 +61,17 @@ func NewFileNode(path string, digest Digest) (FileNode, error) {
 //
 // This reverses FileNode.String().
 func ParseFileNode(s string) (FileNode, error) {
-	split := strings.Split(s, "  ")
-	if len(split) != 2 {
+	// The digest never contains a space, so the first two spaces are the separator; the
+	// path itself may contain consecutive spaces.
+	digestString, path, ok := strings.Cut(s, "  ")
+	if !ok {
 		return nil, bufparse.NewParseError(
 			"file node",
 			s,
 			errors.New(`must in the form "digest[SP][SP]path"`),
 		)
 	}
-	digest, err := ParseDigest(split[0])
+	digest, err := ParseDigest(digestString)
 	if err != nil {
 		return nil, bufparse.NewParseError(
 			"file node",
@@ -77,7 +79,6 @@ func ParseFileNode(s string) (FileNode, error) {
 			err,
 		)
 	}
-	path := split[1]
 	if err := validateFileNodeParameters(path, digest); err != nil {
 		return nil, bufparse.NewParseError(
 			"file node",
